@@ -108,6 +108,56 @@ def record(ao, rng):
     return dict(fns=fns, bands=bands), dict(photons_per_mag=ppm, photons_per_mag_5mag_ratio=r5)
 
 
+def invariances(ao):
+    """exact consequences of the diagram that a monomial fit on clean inputs cannot see: the photon count is proportional to the
+    collecting area for ANY mask (grey / partially illuminated pixels included), and the slope-variance <-> r0 pair is an
+    inverse pair whatever static offset the slopes ride on (a variance does not depend on the mean)"""
+    from aotools.turbulence import atmos_conversions as ac
+    from aotools.astronomy import _astronomy as ast
+    bad = []
+    n = 0
+    ones = np.ones((6, 6))
+    grey = np.array([[0.0, 0.25, 0.5, 0.5, 0.25, 0.0], [0.25, 1, 1, 1, 1, 0.25], [0.5, 1, 0, 0, 1, 0.5],
+                     [0.5, 1, 0, 0, 1, 0.5], [0.25, 1, 1, 1, 1, 0.25], [0.0, 0.25, 0.5, 0.5, 0.25, 0.0]])
+    parts = [np.where((np.indices((6, 6))[1] < 3), grey, 0.0), np.where((np.indices((6, 6))[1] >= 3), grey, 0.0)]
+    for band in list(ast.FLUX_DICTIONARY)[:12]:
+        full = float(ast.photons_per_band(8.0, ones, 0.05, 0.02, band))
+        for label, m in (("grey-pupil", grey), ("half-transmission", 0.5 * ones), ("integer-mask", ones.astype(int)), ("boolean-mask", grey > 0.9)):
+            got = float(ast.photons_per_band(8.0, m, 0.05, 0.02, band))
+            n += 1
+            want = full * float(np.asarray(m, float).sum()) / ones.sum()
+            if not abs(got - want) <= 1e-12 * abs(want):
+                bad.append(("conversion:band:%s:photons-not-proportional-to-collecting-area:%s" % (band, label), dict(got=got, expected=want)))
+                return bad, n
+        tot = sum(float(ast.photons_per_band(8.0, p_, 0.05, 0.02, band)) for p_ in parts)
+        whole = float(ast.photons_per_band(8.0, grey, 0.05, 0.02, band))
+        if not abs(tot - whole) <= 1e-12 * abs(whole):
+            bad.append(("conversion:band:%s:photons-not-additive-over-sub-apertures" % band, dict(sum_of_parts=tot, whole=whole)))
+            return bad, n
+    a = float(ast.photons_per_mag(6.0, grey, 0.05, 100.0, 0.02))
+    b = float(ast.photons_per_mag(6.0, ones, 0.05, 100.0, 0.02))
+    n += 1
+    if not abs(a / b - grey.sum() / ones.sum()) <= 1e-12:
+        bad.append(("conversion:photons_per_mag:not-proportional-to-collecting-area", dict(ratio=a / b, expected=float(grey.sum() / ones.sum()))))
+    pat = np.array([1.0, -1.0] * 32)
+    for r0 in (0.05, 0.15, 0.6):
+        for wl, d in ((500e-9, 0.2), (1.65e-6, 0.5)):
+            sig = math.sqrt(float(ac.slope_variance_from_r0(r0, wl, d)))
+            for off in (0.0, 1e-4, 0.01, 0.1, 0.3, -0.3):
+                for dt in (np.float64,):
+                    sl = (off + sig * pat).astype(dt)
+                    # the record really has mean `off` and variance sig^2 up to rounding of the samples themselves
+                    true_var = float(np.var(sl.astype(np.longdouble)))
+                    want = float(ac.r0_from_slopes(np.sqrt(true_var) * pat, wl, d))
+                    got = float(np.ravel(ac.r0_from_slopes(sl, wl, d))[0])
+                    n += 1
+                    if not abs(got - want) <= 1e-9 * want or not abs(want - r0) <= 1e-6 * r0:
+                        bad.append(("conversion:diagram:r0_from_slopes(slope_variance_from_r0)-inverse-pair:static-offset",
+                                    dict(r0=r0, wavelength=wl, subapDiam=d, offset=off, got=got, expected=want)))
+                        return bad, n
+    return bad, n
+
+
 def axis_cases(ao, printed):
     from aotools.turbulence import atmos_conversions as ac
     bad = []
@@ -214,6 +264,11 @@ def run(run):
     ra = run.tlc("Units", cfg_text=cfg, label="Units/axis", require_actions=("AxisDone",), timeout=1200)
     if ra.violated:
         raise core.MachineryError("Units.tla (axis) violates %s" % ra.violated)
+    badi, ni = invariances(ao)
+    run.traces += ni
+    run.aux["invariance_evaluations"] = ni
+    for key, detail in badi:
+        run.violation(key, detail, dict(kind="invariance", detail=detail))
     badr, nr = reuse_cases(ao)
     run.traces += nr
     for key, detail in badr:
